@@ -152,6 +152,8 @@ def run_case(case: dict) -> dict:
             try:
                 pipeline = dataset.as_tfdataset(split, batch_size=0, shuffle=shuffle, repeat=False, file_parallelism=par)
                 for round_no in range(3):
+                    if round_no == 1 and fmt == "tfrec":
+                        continue      # TensorFlow's own pipeline end to end; its iterators are not abandoned here
                     iterator = iter(pipeline.as_numpy_iterator())
                     if round_no == 1:
                         list(itertools.islice(iterator, max(1, sum(want.values()) // 2)))    # abandoned mid-way
